@@ -7,6 +7,7 @@ import (
 
 	jschemaLib "github.com/jsightapi/jsight-schema-go-library"
 	"github.com/jsightapi/jsight-schema-go-library/notations/jschema"
+	"github.com/jsightapi/jsight-schema-go-library/notations/regex"
 
 	"github.com/jsightapi/jsight-api-go-library/notation"
 )
@@ -53,12 +54,25 @@ func prepareJSightSchema(
 	}
 
 	err := userTypes.Each(func(k string, v jschemaLib.Schema) error {
-		return s.AddType(k, v)
+		return s.AddType(k, FreshUserType(k, v))
 	})
 	if err != nil {
 		return nil, err
 	}
 	return s, nil
+}
+
+// FreshUserType returns the user type as it should be added to a schema. A
+// regex type is copied: the schema to which it is added takes an example from
+// it, and every example taken changes the state of the type's generator, so
+// the example would depend on how many schemas have used the type before.
+func FreshUserType(name string, ut jschemaLib.Schema) jschemaLib.Schema {
+	if r, ok := ut.(*regex.Schema); ok {
+		if p, err := r.Pattern(); err == nil {
+			return regex.New(name, "/"+p+"/", regex.WithGeneratorSeed(0))
+		}
+	}
+	return ut
 }
 
 func unmarshalJSightSchema(s jschemaLib.Schema) (Schema, error) {
